@@ -508,4 +508,114 @@ theorem itimeStates_eq (st : List Bool) (sl : Slots) :
     | none => simp only [itimeStates, statesVisited]; rw [ih]; rfl
     | some op => simp only [itimeStates, statesVisited]; rw [ih]; rfl
 
+
+/-! ### counting events -/
+
+def advLen : Ev → Nat
+  | Ev.adv t => t
+  | _ => 0
+
+/-- total number of single steps an event log advances -/
+def totalAdv (log : List Ev) : Nat := (log.map advLen).sum
+
+theorem count_adv_expand (log : List Ev) : (expandEv log).count (Ev.adv 1) = totalAdv log := by
+  induction log with
+  | nil => rfl
+  | cons e r ih =>
+    cases e with
+    | adv t => rw [expandEv_adv, List.count_append, List.count_replicate_self, ih]; simp [totalAdv, advLen]
+    | swap => simp only [expandEv]; rw [List.count_cons, ih]; simp [totalAdv, advLen]
+    | sample => simp only [expandEv]; rw [List.count_cons, ih]; simp [totalAdv, advLen]
+
+theorem count_swap_expand (log : List Ev) : (expandEv log).count Ev.swap = log.count Ev.swap := by
+  induction log with
+  | nil => rfl
+  | cons e r ih =>
+    cases e with
+    | adv t =>
+      rw [expandEv_adv, List.count_append, ih, List.count_cons]
+      have : (List.replicate t (Ev.adv 1)).count Ev.swap = 0 := by
+        rw [List.count_replicate]; simp
+      simp [this]
+    | swap => simp only [expandEv]; rw [List.count_cons, List.count_cons, ih]
+    | sample => simp only [expandEv]; rw [List.count_cons, List.count_cons, ih]
+
+theorem count_sample_expand (log : List Ev) : (expandEv log).count Ev.sample = log.count Ev.sample := by
+  induction log with
+  | nil => rfl
+  | cons e r ih =>
+    cases e with
+    | adv t =>
+      rw [expandEv_adv, List.count_append, ih, List.count_cons]
+      have : (List.replicate t (Ev.adv 1)).count Ev.sample = 0 := by
+        rw [List.count_replicate]; simp
+      simp [this]
+    | swap => simp only [expandEv]; rw [List.count_cons, List.count_cons, ih]
+    | sample => simp only [expandEv]; rw [List.count_cons, List.count_cons, ih]
+
+theorem tickLog_count_adv (s f T : Nat) : (tickLog s f T).count (Ev.adv 1) = T := by
+  induction T with
+  | zero => rfl
+  | succ T ih =>
+    simp only [tickLog, List.count_append, ih, List.count_cons, tickEvents]
+    split <;> split <;> simp
+
+theorem count_swap_tickEvents (s f k : Nat) : (tickEvents s f k).count Ev.swap = if k % s = 0 then 1 else 0 := by
+  unfold tickEvents; split <;> split <;> simp
+
+theorem count_sample_tickEvents (s f k : Nat) : (tickEvents s f k).count Ev.sample = if k % f = 0 then 1 else 0 := by
+  unfold tickEvents; split <;> split <;> simp
+
+theorem tickLog_count_swap (s f T : Nat) : (tickLog s f T).count Ev.swap = T / s := by
+  induction T with
+  | zero => simp [tickLog]
+  | succ T ih =>
+    simp only [tickLog, List.count_append, ih, List.count_cons, count_swap_tickEvents]
+    by_cases hm : (T + 1) % s = 0
+    · rw [(succ_div_of_mod_eq_zero hm).1, if_pos hm]; simp
+    · rw [succ_div_of_mod_ne_zero hm, if_neg hm]; simp
+
+theorem tickLog_count_sample (s f T : Nat) : (tickLog s f T).count Ev.sample = T / f := by
+  induction T with
+  | zero => simp [tickLog]
+  | succ T ih =>
+    simp only [tickLog, List.count_append, ih, List.count_cons, count_sample_tickEvents]
+    by_cases hm : (T + 1) % f = 0
+    · rw [(succ_div_of_mod_eq_zero hm).1, if_pos hm]; simp
+    · rw [succ_div_of_mod_ne_zero hm, if_neg hm]; simp
+
+/-! ### excluded inputs: a zero period makes no progress -/
+
+theorem chunkLoop_swap_zero_stuck {κ : Type u} (C : Container κ) (f : Nat) :
+    ∀ (fuel : Nat) (x : CState κ), x.toSwap = 0 → 
+      (chunkLoop C 0 f fuel x).remaining = x.remaining := by
+  intro fuel
+  induction fuel with
+  | zero => intro x _; rfl
+  | succ fuel ih =>
+    intro x h
+    unfold chunkLoop
+    by_cases h0 : x.remaining = 0
+    · rw [if_pos h0]
+    · rw [if_neg h0]
+      have ht : chunkT x = 0 := by unfold chunkT; omega
+      have h1 : (chunkIter C 0 f x).toSwap = 0 := by rw [chunkIter_toSwap, ht, h]; simp
+      rw [ih _ h1, chunkIter_remaining, ht]; rfl
+
+theorem chunkLoop_sample_zero_stuck {κ : Type u} (C : Container κ) (s : Nat) :
+    ∀ (fuel : Nat) (x : CState κ), x.toSample = 0 → 
+      (chunkLoop C s 0 fuel x).remaining = x.remaining := by
+  intro fuel
+  induction fuel with
+  | zero => intro x _; rfl
+  | succ fuel ih =>
+    intro x h
+    unfold chunkLoop
+    by_cases h0 : x.remaining = 0
+    · rw [if_pos h0]
+    · rw [if_neg h0]
+      have ht : chunkT x = 0 := by unfold chunkT; omega
+      have h1 : (chunkIter C s 0 x).toSample = 0 := by rw [chunkIter_toSample, ht, h]; simp
+      rw [ih _ h1, chunkIter_remaining, ht]; rfl
+
 end Qmc
